@@ -75,6 +75,10 @@ CHECKS["C19"] = dict(level="exploration", engine="multi-opener monitor (in-proce
    technique="runtime monitor with a one-variable model (who owns the directory): generated sequences of open / close / drop / commit / process exit / SIGKILL by 3 in-process and 2 child-process openers; every open attempt's outcome compared with the model; directory snapshot before/after refused attempts",
    text="Held on the generated sequences counted in the evidence: an open succeeds exactly when no live instance holds the directory (same process and across processes), a refused open leaves every file of the directory byte-identical, after close / drop / process exit / SIGKILL of the owner the next open succeeds (after a drop: within a bounded retry, the release runs in a background task) and sees every commit acknowledged to earlier owners. Orders are sampled.",
    note="Trusted: child-process driver over pipes; advisory locks of the test machine's file system (tmpfs under /dev/shm). Background flush / compaction is off in all openers so that an idle owner leaves the directory unchanged.")
+CHECKS["C16"] = dict(level="fault_enumeration", engine="damage sweep (verifier subprocesses)", ref="DESIGN.md 3/C16",
+   technique="runtime monitor over altered copies of generated databases: one bit or byte of one table / commit-log / value-log file changed (or a table cut), the copy opened by the real code in a verifier subprocess, all keys read, both scan directions, flush + compaction, read again; every successful read compared with the written data",
+   text="Thorough tier: every byte position of every table, commit-log and value-log file of the generated databases gets a byte flip and a bit flip, and every table file is cut at every offset (a superset of its block boundaries). Quick tier: stratified sample (file heads and tails + 260 seeded positions per file, small files exhaustively, truncation every 11th offset). A read that succeeds must return the written data; commit-log alterations are judged with the repairing recovery mode's prefix semantics (C12). Panics, dead verifier processes and wrong data are violations; a silent verifier is killed and counted inconclusive.",
+   note="Trusted: verifier subprocess protocol. Manifest files are not altered (not named by the property). The value log is read with VLogChecksumLevel::Full.")
 order = ["C01","C02","C03","C04","C05","C06","C07","C08","C09","C10","C11","C12","C13","C14","C15","C16","C17","C18","C19"]
 checks=[]
 for pid in order:
